@@ -305,21 +305,25 @@ class LockSets:
 class Facts:
     """Partial truth assignment over normalised atoms with propagation."""
 
-    def __init__(self, repo: Repo, fi: FuncInfo, aliases: dict[str, ast.AST] | None = None) -> None:
+    def __init__(self, repo: Repo, fi: FuncInfo, aliases: dict[str, ast.AST] | None = None, expand_locals: bool = False) -> None:
         self.repo = repo
         self.fi = fi
         self.aliases = local_aliases(repo, fi) if aliases is None else aliases
         self.env: dict[str, bool] = {}
         self.consistent = True
+        #: match on value origins: every single-assignment local is replaced by its defining expression
+        #: (only where a snapshot of a mutable field may be identified with the field -- pure matching)
+        self.expand_locals = expand_locals
 
     def clone(self) -> "Facts":
-        f = Facts(self.repo, self.fi, self.aliases)
+        f = Facts(self.repo, self.fi, self.aliases, self.expand_locals)
         f.env = dict(self.env)
         f.consistent = self.consistent
         return f
 
     def atom(self, e: ast.AST) -> tuple[str, bool]:
         """(key, negated)"""
+        e = self._x(e)
         if isinstance(e, ast.Compare) and len(e.ops) == 1:
             l = nexpr(self.repo, self.fi, e.left, self.aliases)
             r = nexpr(self.repo, self.fi, e.comparators[0], self.aliases)
@@ -338,7 +342,14 @@ class Facts:
                 return (f"{l} in {r}", True)
         return (nexpr(self.repo, self.fi, e, self.aliases), False)
 
+    def _x(self, e: ast.AST) -> ast.AST:
+        if not self.expand_locals:
+            return e
+        x = expand(self.repo, self.fi, e)
+        return x if x is not None else e
+
     def eval(self, e: ast.AST) -> bool | None:
+        e = self._x(e)
         if isinstance(e, ast.Constant):
             return bool(e.value)
         if isinstance(e, ast.UnaryOp) and isinstance(e.op, ast.Not):
@@ -363,6 +374,7 @@ class Facts:
         return None
 
     def assume(self, e: ast.AST, value: bool) -> None:
+        e = self._x(e)
         cur = self.eval(e)
         if cur is not None:
             if cur != value:
@@ -388,6 +400,12 @@ class Facts:
         k, neg = self.atom(e)
         self.env[k] = value != neg
 
+    def assume_src(self, src: str, value: bool) -> None:
+        self.assume(ast.parse(src, mode="eval").body, value)
+
+    def value_src(self, src: str) -> bool | None:
+        return self.eval(ast.parse(src, mode="eval").body)
+
     def set_atom(self, key: str, value: bool) -> None:
         if key in self.env and self.env[key] != value:
             self.consistent = False
@@ -395,6 +413,15 @@ class Facts:
 
     def get(self, key: str) -> bool | None:
         return self.env.get(key)
+
+
+def guard_facts(repo: Repo, fi: FuncInfo, cfg: CFG, nid: int, expand_locals: bool = True) -> Facts:
+    """facts implied by the branch decisions that dominate node nid (origin-expanded by default)"""
+    f = Facts(repo, fi, {}, expand_locals=expand_locals)
+    for (t, lab) in cfg.guards(nid):
+        if t.kind == "test":
+            f.assume(t.ast, lab == "true")
+    return f
 
 
 def feasible_paths(repo: Repo, fi: FuncInfo, cfg: CFG, base: Facts | None = None, limit: int = 512,
